@@ -805,3 +805,82 @@ def C02_misc_rewrites_family(include_not_true=False, only_dropout=False):
 ALL["C02_misc_rewrites_family"] = C02_misc_rewrites_family
 # known finding D27: Dropout(training_mode = Not(constant True)) - the rewritten node reads a value that is neither initializer nor node output
 ALL["D27_dropout_not_true"] = lambda: C02_misc_rewrites_family(include_not_true=True, only_dropout=True)
+
+
+# --------------------------------------------------------------------------- C08 export post-processing only weakens
+def C08_postprocess_family():
+    """ir_postprocess.postprocess_ir_model on hand-built models whose intermediate values declare every mixture of integer,
+    named-symbolic and unknown dims (ranks 0..3), at top level, inside a Loop body (where only the rank may survive) and an If
+    branch, with values that are also graph inputs/outputs, with and without promotion to double: afterwards every value
+    keeps its rank, every dim is the old dim or unknown, graph inputs and outputs declare exactly what they declared, and
+    element types change only for float32 constants under promotion (payload and declared type together)."""
+    import onnx_ir as ir
+    from jax2onnx.converter import ir_postprocess as pp
+    pools = [None, 2, 3, "B", "N"]
+    n = 0
+
+    def dims_of(v):
+        return None if v.shape is None else [d if isinstance(d, int) else (d.value if isinstance(d, ir.SymbolicDim) else d) for d in v.shape.dims]
+
+    io_ids = set()
+
+    def snapshot(graph, acc, where):
+        io_ids.update(id(v) for v in list(graph.inputs) + list(graph.outputs))     # inputs/outputs of nested bodies are an interface too
+        for val in list(graph.inputs) + list(graph.outputs) + [o for nd in graph for o in nd.outputs] + list(getattr(graph.initializers, "values", lambda: [])()):
+            acc.setdefault(id(val), (where, val, dims_of(val), val.dtype))
+        for nd in graph:
+            for a in nd.attributes.values():
+                if a.type == ir.AttributeType.GRAPH:
+                    snapshot(a.as_graph(), acc, where + "/" + nd.op_type)
+
+    for rank in range(0, 4):
+        for combo in itertools.product(pools, repeat=rank):
+            if rank == 3 and (combo[0] != 2 or len(set(map(str, combo))) < 2):
+                continue
+            for promote in (False, True):
+                shp = lambda: ir.Shape(list(combo))  # noqa: E731
+                F = ir.DataType.FLOAT
+                x = ir.Value(name="x", type=ir.TensorType(F), shape=shp())
+                a = ir.Value(name="a", type=ir.TensorType(F), shape=shp())
+                b = ir.Value(name="b", type=ir.TensorType(F), shape=shp())
+                y = ir.Value(name="y", type=ir.TensorType(F), shape=shp())
+                c = ir.Value(name="c", type=ir.TensorType(F), shape=ir.Shape([1]), const_value=ir.tensor(np.asarray([0.5], np.float32)))
+                ci = ir.Value(name="ci", type=ir.TensorType(ir.DataType.INT64), shape=ir.Shape([1]), const_value=ir.tensor(np.asarray([3], np.int64)))
+                # a Loop body with one intermediate of the same declared shape
+                bi, bc, bs = (ir.Value(name=nm, type=ir.TensorType(t), shape=ir.Shape(sh)) for nm, t, sh in (("it", ir.DataType.INT64, []), ("cnd", ir.DataType.BOOL, []), ("st", F, list(combo))))
+                bm = ir.Value(name="body_mid", type=ir.TensorType(F), shape=shp())
+                bo = ir.Value(name="body_out", type=ir.TensorType(F), shape=shp())
+                body = ir.Graph([bi, bc, bs], [bc, bo], nodes=[ir.Node("", "Relu", [bs], outputs=[bm]), ir.Node("", "Neg", [bm], outputs=[bo])], name="body", opset_imports={"": 21})
+                trip = ir.Value(name="trip", type=ir.TensorType(ir.DataType.INT64), shape=ir.Shape([]), const_value=ir.tensor(np.asarray(2, np.int64)))
+                cond0 = ir.Value(name="cond0", type=ir.TensorType(ir.DataType.BOOL), shape=ir.Shape([]), const_value=ir.tensor(np.asarray(True)))
+                nodes = [ir.Node("", "Add", [x, c], outputs=[a]), ir.Node("", "Relu", [a], outputs=[b]),
+                         ir.Node("", "Loop", [trip, cond0, b], outputs=[y], attributes=[ir.AttrGraph("body", body)])]
+                g = ir.Graph([x], [y, a], nodes=nodes, initializers=[c, ci, trip, cond0], name="g", opset_imports={"": 21})
+                m = ir.Model(g, ir_version=10)
+                before = {}
+                io_ids.clear()
+                snapshot(g, before, "top")
+                pp.postprocess_ir_model(m, promote_to_double=promote)
+                io = set(io_ids)
+                for vid, (where, val, d0, t0) in before.items():
+                    d1, t1 = dims_of(val), val.dtype
+                    what = f"dims {list(combo)}, promote={promote}: value `{val.name}` ({where})"
+                    if vid in io and (d1 != d0 or t1 != t0):
+                        return False, f"{what} is a graph input/output and changed its declaration {d0}/{t0} -> {d1}/{t1}"
+                    if (d0 is None) != (d1 is None) and d0 is not None:
+                        return False, f"{what}: declared shape dropped entirely ({d0} -> {d1})"
+                    if d0 is not None and d1 is not None:
+                        if len(d0) != len(d1):
+                            return False, f"{what}: rank changed {d0} -> {d1}"
+                        for o, nw in zip(d0, d1):
+                            if nw is not None and nw != o:
+                                return False, f"{what}: dim {o!r} became {nw!r} (post-processing may only forget dims)"
+                    if t1 != t0:
+                        is_f32_const = val.const_value is not None and t0 == F
+                        if not (promote and is_f32_const and t1 == ir.DataType.DOUBLE and val.const_value.dtype == ir.DataType.DOUBLE):
+                            return False, f"{what}: element type {t0} -> {t1}"
+                n += 1
+    return True, f"{n} models post-processed: declarations only weakened, inputs/outputs untouched"
+
+
+ALL["C08_postprocess_family"] = C08_postprocess_family
